@@ -377,14 +377,17 @@ Proof.
     destruct (find_checkpoint c (apply_batch s3 wq) (q - 1) (finalized c s3) (b_id b)) as [f|] eqn:Efc.
     2:{ cbn [app fin_steps writes_of_steps flat_map apply_writes fold_left] in *. split; [exact K4|]. split; [exact I4|].
         rewrite Er, F4 in Hr. exact Hr. }
-    cbn [app fin_steps writes_of_steps flat_map apply_writes fold_left] in *.
-    set (s5 := apply_batch (apply_batch s3 wq) [Put KFinalized (VId f)]) in *.
+    cbn [fin_steps writes_of_steps flat_map apply_writes fold_left] in *.
+    set (wqf := wq ++ [Put KFinalized (VId f)]) in *.
+    assert (E5 : apply_batch s3 wqf = apply_batch (apply_batch s3 wq) [Put KFinalized (VId f)]) by (unfold wqf; apply apply_batch_app).
+    set (s5 := apply_batch s3 wqf) in *.
     assert (F5 : finalized c s5 = f).
-    { unfold s5, finalized, get_id. rewrite get_apply_batch. simpl. destruct (key_eq_dec KFinalized KFinalized); congruence. }
-    split; [exact K4|]. split; [exact I4|].
-    split; [apply keeps_frame; intros o [<-|[]] i; discriminate|].
-    split; [apply finalized_put_inv; auto; eapply find_checkpoint_stored; eauto|].
-    rewrite Er, F5 in FM. split; [exact FM|]. rewrite Er, F5 in Hr. exact Hr.
+    { rewrite E5. unfold finalized, get_id. rewrite get_apply_batch. simpl. destruct (key_eq_dec KFinalized KFinalized); congruence. }
+    cbn [app fin_steps]. fold s5.
+    split; [apply keeps_frame; unfold wqf, wq; intros o [<-|[<-|[]]] i; discriminate|].
+    split; [rewrite E5; apply finalized_put_inv; auto; eapply find_checkpoint_stored; eauto|].
+    assert (Er' : run1 c s b = s5) by (rewrite Er; reflexivity).
+    rewrite Er', F5 in FM. split; [exact FM|]. rewrite Er', F5 in Hr. exact Hr.
 Qed.
 
 Theorem history_fin_steps c l : forall s, wf_cfg c -> Inv c s -> wf_hist c s l ->
